@@ -80,7 +80,15 @@ class Content:
         content into memory.  Where this is a concern, use ``iter_text``
         instead.
         """
-        return "".join(self.iter_text())
+        if self.content_type.type != "text":
+            raise ValueError("Not a text type %r" % self.content_type)
+        # Everything is loaded anyway, so decode the whole byte string at once:
+        # the result cannot depend on how the source happens to chunk its
+        # bytes, whatever codec is declared (several incremental decoders of
+        # the standard library - utf-16/utf-32 without BOM, utf-8-sig,
+        # punycode - do not agree with decoding in one go).
+        encoding = self.content_type.parameters.get("charset", "ISO-8859-1")
+        return _join_b(self.iter_bytes()).decode(encoding)
 
     def iter_bytes(self):
         """Iterate over bytestrings of the serialised content."""
